@@ -117,6 +117,17 @@ Fixpoint digits_fuel (fuel : nat) (n : N) (acc : text) : text :=
 
 Definition N_to_text (n : N) : text := digits_fuel (S (N.to_nat (N.log2 n))) n [].
 
+(* ---- baseRouter.RouteTimeout: the time it records --------------------------------------------------------------
+   The Go loop runs over run.Events() from the last event to the first and assigns timedOutOn at EVERY
+   wait_timed_out event, without leaving the loop: what remains is the time of the run's FIRST wait_timed_out event
+   (the comment in base.go says "last").  [times] are the formatted creation times of the run's wait_timed_out events,
+   oldest first; without any, the zero time is formatted (unreachable: a timeout resume logs the event before routing). *)
+Definition zero_time_text : text :=       (* "0001-01-01T00:00:00.000000Z" *)
+  [48; 48; 48; 49; 45; 48; 49; 45; 48; 49; 84; 48; 48; 58; 48; 48; 58; 48; 48; 46; 48; 48; 48; 48; 48; 48; 90].
+
+Definition scan_timeouts (times : list text) : text :=
+  fold_left (fun (_ : text) (t : text) => t) (rev times) zero_time_text.
+
 (* ---- the random draw: random.Decimal() is a decimal d_mant * 10^(-d_scale) ---------------------- *)
 
 Record draw := { d_mant : N; d_scale : N }.
@@ -278,7 +289,7 @@ Definition route_switch (b : base_router) (operand_tpl : text) (cases : list cas
         route_to_category b prev cat mtch operand_str extra evs
   end.
 
-(* ---- baseRouter.RouteTimeout: timed_out_on is the formatted time of the timeout event (opaque) -------- *)
+(* ---- baseRouter.RouteTimeout: timed_out_on is what scan_timeouts makes of the run's wait_timed_out events ---- *)
 
 Definition route_timeout (b : base_router) (timed_out_on : text) (prev : option result) : route_out :=
   match b_timeout b with
@@ -358,7 +369,8 @@ Definition segment_of (flow_nodes : list uuid) (p : pick_out) : option (uuid * t
   | None => None
   end.
 
-(* where pickNodeExit is called from: visitNode (start or continuing sprint) or findResumeExit (resume) *)
+(* where pickNodeExit is called from: visitNode (start or continuing sprint) or findResumeExit (resume; also used when
+   a parent run is resumed after its sub-flow ended, where an error fails the run just as at a resume) *)
 Inductive call_site := AtVisit | AtResume.
 
 Inductive node_outcome :=
